@@ -1,4 +1,5 @@
 """C07 - location and range lists decode to exactly the encoded entries."""
+from vf import usage
 from vf.enc import dwarf as D
 from vf.enc.leb import uleb
 from vf.choose import RndChooser, composite_from
@@ -504,6 +505,20 @@ def run_case(ctx, case):
                     if not cmp_list(ctx, 'enumerate|%s|v%d' % (sect, 5 if v5 else 4), g, wnt, case):
                         break
             ctx.count('enumerate.%s.v%d' % (sect, 5 if v5 else 4))
+            # the same enumeration consumed step by step while the consumer fetches other lists / moves the stream between two steps
+            if len(got_seq) == len(want_seq):
+                stream = getattr(di, {('loc', True): 'debug_loclists_sec', ('loc', False): 'debug_loc_sec', ('rng', True): 'debug_rnglists_sec', ('rng', False): 'debug_ranges_sec'}[(sect, v5)]).stream
+                mk = obj.iter_location_lists if sect == 'loc' else obj.iter_range_lists
+                try:
+                    stepped = [got_entries(l, sect == 'loc') for l in usage.stepwise(mk, usage.disturber(stream))]
+                    if stepped != got_seq:
+                        ctx.fail('enumerate|%s|v%d|interleaved-with-other-stream-use' % (sect, 5 if v5 else 4), 'a plain loop yields %d lists; with the stream moved between two steps %d (or different ones)' % (
+                            len(got_seq), len(stepped)), case)
+                except Exception as e:  # noqa
+                    ctx.fail('enumerate|%s|v%d|interleaved-with-other-stream-use' % (sect, 5 if v5 else 4), 'a plain loop yields %d lists; with the stream moved between two steps the enumeration raises %s: %s' % (
+                        len(got_seq), type(e).__name__, str(e)[:100]), case)
+                if len(got_seq) >= 2:
+                    ctx.count('enumerate.stepwise.%s.v%d' % (sect, 5 if v5 else 4))
         except Exception as e:  # noqa
             pad = ''
             if v5 and sect == 'loc':
@@ -534,6 +549,17 @@ def run_case(ctx, case):
                                          'block at %d (offset_count %d, format %d): expected %d lists %r, got %d %r' % (
                                              b['cu_offset'], b['offset_count'], b['fmt'], len(wantl), wantl[:2], len(gotl), gotl[:2]), case)
                             ctx.count('blocks.iter_CU_range_lists_ex')
+                            if gotl == wantl:
+                                try:
+                                    st2 = di.debug_rnglists_sec.stream
+                                    stepped = [[(str(r.entry_type)[7:], r.entry_offset, r.entry_length) for r in raw]
+                                               for raw in usage.stepwise(lambda: obj.iter_CU_range_lists_ex(h), usage.disturber(st2))]
+                                    if stepped != gotl:
+                                        ctx.fail('blocks|rng|iter_CU_range_lists_ex|interleaved-with-other-stream-use', 'block at %d: a plain loop yields %d lists; with the stream moved between two steps %d (or different ones)' % (
+                                            b['cu_offset'], len(gotl), len(stepped)), case)
+                                except Exception as e:  # noqa
+                                    ctx.fail('blocks|rng|iter_CU_range_lists_ex|interleaved-with-other-stream-use', 'block at %d: a plain loop yields %d lists; with the stream moved between two steps the walk raises %s: %s' % (
+                                        b['cu_offset'], len(gotl), type(e).__name__, str(e)[:100]), case)
                         except Exception as e:  # noqa
                             ctx.fail_exc('blocks|rng|iter_CU_range_lists_ex', e, case)
                 ctx.count('blocks.%s' % sect)
